@@ -262,6 +262,55 @@ func c01Codec(c *Ctx, g *GenRR) {
 	c.Hit("codec:covered:" + pl.Type)
 }
 
+
+// c05Generic: the RFC 3597 generic form on the model (lean/DnsModel/Generic.lean): what (*RFC3597).String prints for the
+// RDATA octets, and what a record of a known type written in the generic form is read back as — parsed as RFC3597, the
+// hex text decoded, the type's own unpack body run on the octets — against the real parser; also with the hex text cut
+// into chunks, in upper case, with a wrong length and with a digit damaged.
+func c05Generic(c *Ctx, g *GenRR) {
+	t := loadSpec()
+	pl := t.byCode[g.Type]
+	if pl == nil || len(g.Rdata) == 0 {
+		return
+	}
+	vals, ok := codecLine(pl, g)
+	if !ok {
+		return
+	}
+	h := hx(g.Rdata)
+	gen := &dns.RFC3597{Hdr: dns.RR_Header{Name: "g.example.", Rrtype: g.Type, Class: 1, Ttl: 60}, Rdata: h}
+	f := strings.SplitN(gen.String(), "\t", 5)
+	if len(f) == 5 {
+		c.OpK("generic", "generic.print "+h, hexOrDash([]byte(f[4])), true, "generic-print")
+	}
+	tn := dns.Type(g.Type).String()
+	if strings.HasPrefix(tn, "TYPE") {
+		return
+	}
+	r := c.R
+	forms := []string{fmt.Sprintf("\\# %d %s", len(g.Rdata), h)}
+	if len(h) > 4 {
+		k := 2 * (1 + r.Intn(len(h)/2-1))
+		forms = append(forms, fmt.Sprintf("\\# %d %s %s", len(g.Rdata), h[:k], h[k:]), fmt.Sprintf("\\# %d ( %s\n %s )", len(g.Rdata), h[:k], strings.ToUpper(h[k:])))
+	}
+	forms = append(forms, fmt.Sprintf("\\# %d %s", len(g.Rdata)+1, h), fmt.Sprintf("\\# %d %sx", len(g.Rdata), h[:len(h)-1]), fmt.Sprintf("\\#  %d  %s ; c", len(g.Rdata), h))
+	for i, form := range forms {
+		line := fmt.Sprintf("%s\t%d\tCLASS%d\t%s\t%s\n", presentLabels(g.Owner), g.TTL, g.Class, tn, form)
+		impl := guard(func() string {
+			zp := dns.NewZoneParser(strings.NewReader(line), "", "")
+			rr, ok := zp.Next()
+			if !ok || rr == nil || zp.Err() != nil {
+				return "none"
+			}
+			if d := checkFields(rr, g); d != "" {
+				return "field-mismatch " + d
+			}
+			return strings.TrimSpace(vals)
+		})
+		c.OpK("generic", fmt.Sprintf("generic.parse %s %s", pl.Type, hxs(line)), impl, true, fmt.Sprintf("generic-parse:%d:%s", i, pl.Type))
+	}
+}
+
 func runC01(c *Ctx) {
 	r := c.R
 	t := loadSpec()
